@@ -125,3 +125,29 @@ def randnet(n_in, n_gates, n_out, window, seed, vals, mask):
             for r in rd:
                 Line(c, f, r)
     return c, exp
+
+
+def forkladder(depth, va, mask):
+    """input a drives a chain of `depth` forks (fork -> fork -> ...); every fork also feeds one reader (buf / inv, alternating) that is observed.
+    Forks and lines are created from the far end towards the input (sink first), the way a netlist written bottom-up would be.
+    -> (circuit, [expected bit vector per output])"""
+    c = Circuit('ladder')
+    a = Node(c, 'a', 'input'); c.io_nodes.append(a)
+    forks = [None] * depth
+    for k in reversed(range(depth)):
+        forks[k] = Node(c, f'f{k}')
+    exp = []
+    outs = []
+    for k in reversed(range(depth)):
+        g = Node(c, f'g{k}', 'inv' if k & 1 else 'buf')
+        Line(c, forks[k], g)                      # the reader of this rung first ...
+        if k + 1 < depth:
+            Line(c, forks[k], forks[k + 1])       # ... then the line to the next fork
+        o = Node(c, f'o{k}', 'output')
+        Line(c, g, o)
+        outs.append((k, o))
+    Line(c, a, forks[0])
+    for k, o in sorted(outs):
+        c.io_nodes.append(o)
+        exp.append((~va if k & 1 else va) & mask)
+    return c, exp
